@@ -115,7 +115,8 @@ PROPS = {
         'design_ref': 'DESIGN.md section 5 C05',
     },
     'C03': {
-        'modules': FS_MODULES + ['contracts.demostorage', 'contracts.conflict', 'contracts.connection'],
+        'modules': FS_MODULES + ['contracts.demostorage', 'contracts.conflict', 'contracts.connection',
+                                 'contracts.mappingstorage'],
         'lemmas': [],
         'level': 'proof',
         'bounded': [
@@ -210,7 +211,8 @@ PROPS['C02'] = {
     'design_ref': 'DESIGN.md section 5 C02',
 }
 PROPS['C15'] = {
-    'modules': ['contracts.fs_format', 'contracts.demostorage', 'contracts.mvcc', 'contracts.mappingstorage'],
+    'modules': ['contracts.fs_format', 'contracts.demostorage', 'contracts.mvcc', 'contracts.mappingstorage',
+                'contracts.connection'],
     'lemmas': ['contracts.mvcc:lemma_frames', 'contracts.mvcc:lemma_snapshot'],
     'level': 'proof',
     'bounded': [
